@@ -197,7 +197,7 @@ def run(ctx: Ctx) -> int:
     everything = [dict(p, origin="grid") for p in preds] + [dict(p, origin="random") for p in rpreds]
     live = [p for p in everything if not p["fragile"] and p["case"]["entry"] == "simulator"]
     rep.notes["fragile_excluded"] = len(everything) - len(live)
-    results = pmap(_check, live, chunk=16)
+    results = pmap(_check, live, procs=8, chunk=16)
     outside = 0
     hist: dict = {}
     for p, d in zip(live, results):
@@ -228,7 +228,7 @@ def run(ctx: Ctx) -> int:
     groups = scan_groups(preds)
     if len(groups) < 3:
         raise MachineryError("too few scan groups")
-    sres = pmap(_scan, groups, chunk=1)
+    sres = pmap(_scan, groups, procs=8, chunk=1)
     rows = 0
     for g, d in zip(groups, sres):
         rep.replayed += 1
